@@ -56,13 +56,35 @@ func runC15(c *fw.Ctx) {
 	groupBy := []string{"s", "n"}
 	// pool of field definitions to draw from
 	pool := gen.Fields(r, 5)
-	for len(pool) < 4 {
+	for tries := 0; len(pool) < 4 && tries < 5; tries++ {
 		pool = append(pool, gen.Fields(r, 3)...)
 		seen := map[string]bool{}
 		var uniq []ref.FieldDef
 		for _, f := range pool {
 			if !seen[f.Name] {
 				seen[f.Name] = true
+				uniq = append(uniq, f)
+			}
+		}
+		pool = uniq
+	}
+	// One expression under two field names, added at different times, is outside what this monitor
+	// judges: grouped queries resolve a selected field to the first stored column with the same
+	// expression text (see DESIGN.md, C06/C15 notes), so the second name shows the first column's
+	// longer history although its own stored values are intact. Keep expressions distinct.
+	{
+		seenExpr := map[string]bool{}
+		var uniq []ref.FieldDef
+		for _, f := range pool {
+			e := strings.SplitN(f.SQL(), " AS ", 2)[0]
+			if f.Kind == "bare" {
+				e = "SUM(" + f.A + ")"
+			}
+			if f.Kind == "wavg" || f.Kind == "avg" {
+				e = "AVG(" + f.A + ")" // AVG and WAVG print alike inside zenodb
+			}
+			if !seenExpr[e] {
+				seenExpr[e] = true
 				uniq = append(uniq, f)
 			}
 		}
